@@ -179,6 +179,36 @@ static json runJob(const json &job)
         g->setProfile(pp);
         out["py_h"] = g->interfaceCode();
         out["py"] = g->implementationCode();
+        if (job.contains("regen_math")) {
+            // the caller edits the SAME model object (new math strings: same equations, other listing order), analyses it again with
+            // the SAME analyser and generates with the SAME generator: the output must equal what fresh instances produce
+            for (auto it = job["regen_math"].begin(); it != job["regen_math"].end(); ++it) {
+                auto c = work->component(it.key(), true);
+                if (c) c->setMath(it.value().get<std::string>());
+            }
+            an->analyseModel(work);
+            auto am2 = an->model();
+            auto anF = Analyser::create();
+            anF->analyseModel(work);
+            auto amF = anF->model();
+            json rg;
+            rg["type_reused_analyser"] = am2 ? AnalyserModel::typeAsString(am2->type()) : "null";
+            rg["type_fresh_analyser"] = amF ? AnalyserModel::typeAsString(amF->type()) : "null";
+            rg["issues_same"] = issuesJson(an, 200) == issuesJson(anF, 200);
+            if (am2 && amF && am2->isValid() && amF->isValid()) {
+                auto gF = Generator::create();
+                gF->setModel(amF);
+                g->setModel(am2);
+                g->setProfile(GeneratorProfile::create(GeneratorProfile::Profile::C));
+                rg["c_h_same"] = g->interfaceCode() == gF->interfaceCode();
+                rg["c_c_same"] = g->implementationCode() == gF->implementationCode();
+                if (!rg["c_c_same"].get<bool>()) { rg["c_c_reused"] = g->implementationCode(); rg["c_c_fresh"] = gF->implementationCode(); }
+                g->setProfile(pp);
+                gF->setProfile(GeneratorProfile::create(GeneratorProfile::Profile::PYTHON));
+                rg["py_same"] = g->implementationCode() == gF->implementationCode();
+            }
+            out["regen"] = rg;
+        }
     }
     out["c15"] = c15;
     return out;
